@@ -7,10 +7,11 @@
 //!     rev: d<hex> | p | e | x   (inner read script)      wev: a<n> | p | x   (inner write script)
 //!     op : r<cap> | w<hex> | v<hex>,<hex>.. | f | s       (applied to the top, tokio interface)
 //!   obs: `<res>* ; <written hex> <flushes> <shutdowns>`    res: b<hex> | n<k> | ok | P | E
-//! `st pipe <kind> <cap> ; <pop>*`   pop: [ab](r<cap> | w<hex> | f | s)
+//! `st pipe <kind> <cap> ; <pop>*`   pop: [ab](r<cap> | w<hex> | v<hex>,<hex>.. | f | s)
 //!     kind 0 DuplexStream, 1 Braid, 2 client Stream / server Stream, 3 kind 2 + double TokioIo bridge on A,
-//!     4 unix socketpair in Braid, 5 tcp loopback in Braid (kinds 4,5: kernel buffers, `cap` is ignored; `x` = that side is dropped)
-//!   obs: `<res>*`, for kinds 4 and 5 followed by `; ref <res>*`: the same operations on a pair of the bare tokio sockets
+//!     4 unix socketpair in Braid, 5 tcp loopback in Braid (kinds 4,5: kernel buffers, `cap` is ignored; `x` = that side is dropped),
+//!     6 the library's UnixStream pair, 7 its TcpStream over loopback (no wrapper around them)
+//!   obs: `<res>*`, for kinds 4 to 7 followed by `; ref <res>*`: the same operations on a pair of the bare tokio sockets
 //! `st prog <kind> <cap> ; <transfer>* ; <close a|b|ab|->`     two tasks, one per side, each running its part of the transfers in order
 //!     transfer: `<a|b><len>.<write chunk>.<read buffer>.<flush after every write 0|1>`: that side writes `len` pattern bytes
 //!     (`write` until all are taken, `flush` at the end - and after every chunk with the flag), the other side reads until it has them;
@@ -219,6 +220,15 @@ async fn run_pipe(kind: usize, cap: usize, ops: &[&str]) -> String {
                let a = hyperdriver::client::conn::stream::Stream::from(a);
                (BoxIo(Box::pin(TokioIo::new(TokioIo::new(a)))), BoxIo(Box::pin(hyperdriver::server::conn::Stream::from(b)))) }
         4 => { let (a, b) = hyperdriver::stream::UnixStream::pair().unwrap(); (BoxIo(Box::pin(Braid::from(a))), BoxIo(Box::pin(Braid::from(b)))) }
+        // 6, 7: the library's own socket types without the dispatch wrapper around them
+        6 => { let (a, b) = hyperdriver::stream::UnixStream::pair().unwrap(); (BoxIo(Box::pin(a)), BoxIo(Box::pin(b))) }
+        7 => {
+            let l = tokio::net::TcpListener::bind("127.0.0.1:0").await.unwrap();
+            let addr = l.local_addr().unwrap();
+            let (c, s) = tokio::join!(tokio::net::TcpStream::connect(addr), l.accept());
+            let (s, peer) = s.unwrap();
+            (BoxIo(Box::pin(hyperdriver::stream::TcpStream::client(c.unwrap()))), BoxIo(Box::pin(hyperdriver::stream::TcpStream::server(s, peer))))
+        }
         _ => {
             let l = tokio::net::TcpListener::bind("127.0.0.1:0").await.unwrap();
             let addr = l.local_addr().unwrap();
@@ -233,8 +243,8 @@ async fn run_pipe(kind: usize, cap: usize, ops: &[&str]) -> String {
     // what the socket it wraps reports (the operating system decides what that is: a reset after the peer went away with data
     // unread, say)
     let reference: Option<(BoxIo, BoxIo)> = match kind {
-        4 => { let (x, y) = tokio::net::UnixStream::pair().unwrap(); Some((BoxIo(Box::pin(x)), BoxIo(Box::pin(y)))) }
-        5 => {
+        4 | 6 => { let (x, y) = tokio::net::UnixStream::pair().unwrap(); Some((BoxIo(Box::pin(x)), BoxIo(Box::pin(y)))) }
+        5 | 7 => {
             let l = tokio::net::TcpListener::bind("127.0.0.1:0").await.unwrap();
             let addr = l.local_addr().unwrap();
             let (c, s) = tokio::join!(tokio::net::TcpStream::connect(addr), l.accept());
@@ -242,15 +252,26 @@ async fn run_pipe(kind: usize, cap: usize, ops: &[&str]) -> String {
         }
         _ => None,
     };
-    async fn play(a: BoxIo, b: BoxIo, kernel: bool, ops: &[&str]) -> Vec<String> {
+    // `guide`: the answers of the wrapped pair. A vectored write may accept fewer bytes than the bare socket
+    // would (any prefix of the slices, one after the other); the reference then writes exactly that prefix.
+    async fn play(a: BoxIo, b: BoxIo, kernel: bool, ops: &[&str], guide: Option<&[String]>) -> Vec<String> {
         let (mut a, mut b) = (Some(a), Some(b));
         // reference counters used only to decide how long to wait for kernel sockets to deliver
         let mut inflight = [0isize; 2]; // [a->b, b->a]
         let mut closed = [false; 2];
         let mut out = Vec::new();
-        for op in ops {
+        for (opi, op) in ops.iter().enumerate() {
             let side_a = op.starts_with('a');
             let body = &op[1..];
+            let prefix;
+            let body = match guide.and_then(|g| g.get(opi)).and_then(|g| g.strip_prefix('n')).and_then(|n| n.parse::<usize>().ok()) {
+                Some(k) if body.starts_with('v') => {
+                    let all: Vec<u8> = body[1..].split(',').flat_map(unhex).collect();
+                    prefix = format!("w{}", hex(&all[..k.min(all.len())]));
+                    &prefix[..]
+                }
+                _ => body,
+            };
             let dir_out = if side_a { 0 } else { 1 };
             let dir_in = 1 - dir_out;
             if body == "x" {
@@ -265,25 +286,26 @@ async fn run_pipe(kind: usize, cap: usize, ops: &[&str]) -> String {
             // kernel sockets: readiness is only learnt from the reactor, so give it a chance to run; a
             // write must make progress (the buffers are far larger than what is written), a read must
             // once bytes are in flight or the peer has shut down
-            if kernel && r == "P" && ((body.starts_with('r') && (inflight[dir_in] > 0 || closed[dir_in])) || body.starts_with('w') || body == "f") {
+            if kernel && r == "P" && ((body.starts_with('r') && (inflight[dir_in] > 0 || closed[dir_in])) || body.starts_with('w') || body.starts_with('v') || body == "f") {
                 for _ in 0..400 {
                     tokio::time::sleep(std::time::Duration::from_millis(1)).await;
                     r = do_op(io, body);
                     if r != "P" { break; }
                 }
             }
-            if body.starts_with('w') { if let Some(n) = r.strip_prefix('n') { inflight[dir_out] += n.parse::<isize>().unwrap_or(0); } }
+            if body.starts_with('w') || body.starts_with('v') { if let Some(n) = r.strip_prefix('n') { inflight[dir_out] += n.parse::<isize>().unwrap_or(0); } }
             if body.starts_with('r') { if let Some(h) = r.strip_prefix('b') { inflight[dir_in] -= (if h == "-" { 0 } else { h.len() / 2 }) as isize; } }
             if body == "s" && r == "ok" { closed[dir_out] = true; }
             out.push(r);
         }
         out
     }
-    let mut out = play(a, b, kernel, ops).await;
+    let mut out = play(a, b, kernel, ops, None).await;
     if let Some((x, y)) = reference {
         out.push(";".to_string());
         out.push("ref".to_string());
-        out.extend(play(x, y, kernel, ops).await);
+        let guide = out[..out.len() - 2].to_vec();
+        out.extend(play(x, y, kernel, ops, Some(&guide)).await);
     }
     out.join(" ")
 }
@@ -464,7 +486,7 @@ pub fn gen(r: &mut Rng, i: u64) -> String {
     if i % 9 == 4 { return gen_prog(r, i / 9); }
     if i % 3 == 2 {
         // real pipes; kernel-socket kinds are rarer (slower)
-        let kind = if i % 30 == 29 { r.range(4, 5) } else { r.below(4) };
+        let kind = if i % 30 == 29 { r.range(4, 7) } else { r.below(4) };
         let cap = *r.pick(&[1u64, 2, 3, 5, 8, 16, 64]);
         let mut ops = Vec::new();
         let mut shut = [false, false];
@@ -474,10 +496,12 @@ pub fn gen(r: &mut Rng, i: u64) -> String {
             let op = match r.below(10) {
                 0..=3 if !shut[sidx] => format!("{side}w{}", hex(&{ let n = r.range(1, 12); rand_bytes(r, n) })),
                 4..=7 => format!("{side}r{}", r.pick(&[1u64, 2, 3, 5, 8, 32])),
-                8 => format!("{side}f"),
+                8 if kind < 4 || r.chance(1, 2) => format!("{side}f"),
                 9 if !shut[sidx] && kind < 4 => { shut[sidx] = true; format!("{side}s") }
                 // kernel sockets: one side goes away altogether, possibly with data it has not read
                 9 if kind >= 4 && r.chance(1, 2) => format!("{side}x"),
+                // … and vectored writes (several non-empty slices, empty ones in between)
+                8 if kind >= 4 && !shut[sidx] => { let k = r.range(2, 4); let parts: Vec<String> = (0..k).map(|_| hex(&{ let n = r.below(6); rand_bytes(r, n) })).collect(); format!("{side}v{}", parts.join(",")) }
                 _ => format!("{side}r{}", r.pick(&[1u64, 4, 16])),
             };
             ops.push(op);
